@@ -877,3 +877,119 @@ pub fn geometry_sweep_case(idx: u64) -> CaseOut {
     }
     co
 }
+
+// ------------------------------------------------------------------------------------------------------
+// C03: bottom alignment with spare rows (round 11)
+// ------------------------------------------------------------------------------------------------------
+// A bottom-aligned MultiProgress keeps the height its region once had: when members are cleared, blank
+// filler rows remain above the live bars. Logs printed from then on have to go *above* the filler and must
+// never be counted among the rows the next redraw erases. History: n >= 3 one-row members drawn, two or
+// more cleared (finish_and_clear or remove), then a few println events (one or two lines each, through a
+// member or the MultiProgress) with redraws in between. Oracle on physical rows after every step: every
+// line logged so far is on the screen exactly once, in order, above every live bar row.
+
+pub fn bottom_spare_case(seed: u64, idx: u64) -> CaseOut {
+    use indicatif::MultiProgressAlignment;
+    let mut rng = Rng::derive(seed, 311, idx);
+    let replay = format!("b{seed}:{idx}");
+    let n = rng.range(3, 6) as usize;
+    let keep = rng.usize(n);
+    let mut script: Vec<String> = Vec::new();
+    let clock = Arc::new(AtomicU64::new(3_000_000_000));
+    crate::world::install_session(&clock);
+    let mut co = CaseOut::held(0, true);
+    let spy = SpyTerm::new(30, 40, false);
+    spy.state().snap_on_flush = false;
+    let feats = vec!["align-bottom".to_string(), "spare-rows".to_string()];
+    let res = catch_unwind(AssertUnwindSafe(|| -> Verdict {
+        let mp = MultiProgress::with_draw_target(ProgressDrawTarget::term_like(spy.boxed()));
+        mp.set_alignment(MultiProgressAlignment::Bottom);
+        let style = ProgressStyle::with_template("{prefix} {pos}/{len}").unwrap();
+        let bars: Vec<ProgressBar> = (0..n)
+            .map(|i| {
+                let pb = mp.add(ProgressBar::new(10).with_style(style.clone()));
+                pb.set_prefix(format!("bar{i}"));
+                pb.tick();
+                pb
+            })
+            .collect();
+        let mut live: Vec<usize> = (0..n).collect();
+        let mut cleared = 0;
+        for i in 0..n {
+            if i != keep && (cleared < 2 || rng.chance(1, 2)) {
+                if rng.chance(2, 3) {
+                    bars[i].finish_and_clear();
+                    script.push(format!("bar{i}.finish_and_clear()"));
+                } else {
+                    mp.remove(&bars[i]);
+                    script.push(format!("mp.remove(bar{i})"));
+                }
+                live.retain(|x| *x != i);
+                cleared += 1;
+            }
+        }
+        let mut logged: Vec<String> = Vec::new();
+        let steps = rng.range(2, 8);
+        for s in 0..steps {
+            clock.fetch_add(1_000_000_000, SeqCst);
+            match rng.below(4) {
+                0 | 1 => {
+                    let lines = rng.range(1, 2);
+                    let text: Vec<String> = (0..lines).map(|k| format!("log{s}-{k}")).collect();
+                    let joined = text.join("\n");
+                    if rng.chance(1, 2) {
+                        let _ = mp.println(&joined);
+                        script.push(format!("mp.println({joined:?})"));
+                    } else {
+                        let b = *rng.pick(&live);
+                        bars[b].println(&joined);
+                        script.push(format!("bar{b}.println({joined:?})"));
+                    }
+                    logged.extend(text);
+                }
+                2 => {
+                    let b = *rng.pick(&live);
+                    bars[b].inc(1);
+                    script.push(format!("bar{b}.inc(1)"));
+                }
+                _ => {
+                    let b = *rng.pick(&live);
+                    bars[b].tick();
+                    script.push(format!("bar{b}.tick()"));
+                }
+            }
+            let rows = rows_of(&spy);
+            let pos_of = |l: &String| -> Vec<usize> { rows.iter().enumerate().filter(|(_, r)| *r == l).map(|(i, _)| i).collect() };
+            let first_bar = rows.iter().position(|r| r.starts_with("bar"));
+            let mut last = None;
+            for l in &logged {
+                let at = pos_of(l);
+                let w = J::obj().with("script", format!("{script:?}")).with("screen", format!("{rows:?}"));
+                if at.len() != 1 {
+                    return viol(
+                        if at.is_empty() { "log-missing" } else { "log-duplicated" },
+                        feats.clone(),
+                        format!("bottom-aligned region with spare rows: log line {l:?} is on the screen {} times after {:?}; screen {rows:?}", at.len(), script.last()),
+                        w,
+                        replay.clone(),
+                    );
+                }
+                if last.map_or(false, |p| at[0] < p) || first_bar.map_or(false, |fb| at[0] > fb) {
+                    return viol("log-out-of-order", feats.clone(), format!("log line {l:?} is out of place (row {}); screen {rows:?}", at[0]), w, replay.clone());
+                }
+                last = Some(at[0]);
+            }
+        }
+        drop(bars);
+        drop(mp);
+        Verdict::Held
+    }));
+    match res {
+        Ok(v) => co.verdict = v,
+        Err(p) => co.verdict = viol("panic", feats, format!("panicked: {}", crate::world::panic_message(&p)), J::obj().with("script", format!("{script:?}")), replay),
+    }
+    vh::install(None);
+    co.hash = fnv1a(format!("{script:?}").as_bytes());
+    co.count("bottom_spare_histories", 1);
+    co
+}
